@@ -31,10 +31,9 @@ int res(int a0) { return make(a0).x + lazy(); }
 
 # (callee regex, global regex, reason)
 EXEMPT = [
-    (r"^std::unordered_map<unsigned long, unsigned long const\*.*>::operator\[\]\(unsigned long const&\)$",
-     r"yorel::yomm2::policy::vptr_map<.*>::vptrs$",
-     "virtual_ptr's constructor looks the class up with unordered_map::operator[], which inserts only for a key that is "
-     "absent, i.e. for an unregistered class (illegal use); for registered ids it performs no write"),
+    # (none) - the former exemption of unordered_map::operator[] on vptr_map::vptrs in virtual_ptr's constructor was a defect after
+    # all (F33): [container.requirements.dataraces] counts operator[] as const for SEQUENCE containers only, so concurrent
+    # constructions under a vptr_map policy formally raced; the constructor now looks the pointer up through a const reference
 ]
 
 
